@@ -319,7 +319,9 @@ def coll_oracle(interp, env, f, args, t, bb, path):
     # ---- vectors
     if k in ("alloc::vec::Vec::new", "alloc::vec::Vec::with_capacity"):
         return new_vec(interp)
-    if k in ("alloc::collections::btree::set::BTreeSet::new", "std::collections::hash::set::HashSet::new", "std::collections::HashSet::new"):
+    if k in ("alloc::collections::btree::set::BTreeSet::new", "std::collections::hash::set::HashSet::new", "std::collections::HashSet::new",
+             "std::collections::hash::set::HashSet::with_capacity", "std::collections::hash::set::HashSet::default") or \
+            (dk == "core::default::Default::default" and ((f.get("ret") or "").startswith("std::collections::hash::set::HashSet<") or (f.get("ret") or "").startswith("alloc::collections::btree::set::BTreeSet<"))):
         return new_vec(interp)     # a set is modelled as the vector of its distinct members (insertion order)
     if isinstance(v0, Vec) and sa in ("alloc::collections::btree::set::BTreeSet", "std::collections::hash::set::HashSet", "std::collections::HashSet") and nm in ("insert", "contains", "remove") and len(args) == 2:
         items = list(view_get(interp, v0))
